@@ -100,7 +100,7 @@ func body(kind string, third bool, planAlpha []int, nplans int) func(x *harness.
 		s := &st{x: x, kind: kind}
 		x.Vars["st"] = s
 		buf := 1
-		if kind == "tcp" {
+		if kind != "inproc" {
 			buf = 64 << 10
 		}
 		ct, stp, _, _ := lib.Transports(kind, buf, nil)
@@ -383,10 +383,11 @@ func main() {
 		Property: "C05",
 		Level:    "model_checking",
 		Rule:     "2-3 concurrent ProcessCommand callers with ids from {x,y,X} (same-id, different-id and differ-only-by-case collisions, second round reusing an id), optional canceller of one context, a stream reader, and a peer answering each request from the plan {own id, omitted, duplicated, unknown id first, deferred until the next request} - all plan/id combinations as data choices x all schedules within the deviation bound; history checked against a pending-command-table model; distinct outcome = distinct observation log",
-		Assume:   []string{"channel and transport buffers of size 1 (in-process) / 64KiB pipe (TCP)", "delay bounding: every departure from the default schedule (continue the running goroutine; at a block, the lowest-numbered enabled goroutine) costs one deviation; no I/O stall is injected", "pruning assumes all shared state is reached through hooked operations (the pending-command map is guarded by its RWMutex)"},
+		Assume:   []string{"channel and transport buffers of size 1 (in-process) / 64KiB pipe (TCP, WebSocket)", "delay bounding: every departure from the default schedule (continue the running goroutine; at a block, the lowest-numbered enabled goroutine) costs one deviation; no I/O stall is injected", "pruning assumes all shared state is reached through hooked operations (the pending-command map is guarded by its RWMutex)"},
 		Scenarios: []harness.Scenario{
 			mk("inproc/2callers/plans5x3", "inproc", false, full, 3, 1, 1),
 			mk("tcp/2callers/plans5x3", "tcp", false, full, 3, 1, 1),
+			mk("ws/2callers/plans5x3", "ws", false, full, 3, 1, 1),
 			mk("inproc/2callers/plans3x2", "inproc", false, small, 2, -1, 2),
 			mk("tcp/2callers/plans3x2", "tcp", false, small, 2, -1, 2),
 			mk("inproc/3callers/plans3x3", "inproc", true, small, 3, -1, 1),
